@@ -111,7 +111,7 @@ theorem Changed.evolves {bp : NodeId → Prop} {s s' : Storage} {d : Dep} (he : 
       rw [hq'] at hq2; cases hq2
       rcases hc with rfl | ⟨_, _, _, hcase⟩
       · exact h _ hq
-      · rcases hcase with ⟨_, htu'⟩ | ⟨hne, hgt⟩
+      · rcases hcase with ⟨_, htu'⟩ | ⟨hne, hgt, _⟩
         · rw [htu']; exact h _ hq
         · have := hmono q hn rq hq hne; omega
 
@@ -277,7 +277,7 @@ theorem anyDep_inc {P : Prog} {rank : Nat → Nat} {f : Nat} {B : List NodeId} (
               rw [hl1] at hq2; cases hq2
               rcases hc with rfl | ⟨_, _, _, hcase⟩
               · exact absurd hval1 hvne
-              · rcases hcase with ⟨hv, _⟩ | ⟨_, hgt'⟩
+              · rcases hcase with ⟨hv, _⟩ | ⟨_, hgt', _⟩
                 · exact absurd (hv.symm.trans hval1) hvne
                 · have := hmono d List.mem_cons_self q hn rq hl hdne; omega
             | false =>
